@@ -169,6 +169,7 @@ class Ctx:
     whole_array_odds: int = 3                                 # 1 in (n+1) symbolic arrays is the whole-array form {U}
     complex_coefficients: bool = False                        # complex literals inside parameter expressions
     array_elems: Dict[str, list] = field(default_factory=dict)  # name -> (vtype, flat list of element expressions)
+    twins: list = field(default_factory=list)                  # (source, twin) array names with equal elements
     depth: int = 3
     ascii_only: bool = True
 
@@ -455,6 +456,13 @@ def arguments(draw, ctx, symbolic=None, allow_arrays=True, allow_lists=True, max
     nkw = draw(st.integers(0, max_kw))
     whole = [n for n, (t, r, c, sym) in ctx.arrays.items() if allow_arrays]
     pos = []
+    live_twins = [(a_, b_) for a_, b_ in ctx.twins if allow_arrays and a_ in ctx.arrays and b_ in ctx.arrays
+                  and a_ in ctx.array_elems and b_ in ctx.array_elems and ctx.array_elems[a_] is not None
+                  and ctx.array_elems[a_][1] is ctx.array_elems[b_][1]]
+    if live_twins and not kw_only and draw(st.integers(0, 2)) == 0:
+        # both arrays of a twin pair (same elements, different shape) in one argument list
+        a_, b_ = draw(st.sampled_from(live_twins))
+        pos.extend([F1(A.Var(a_)), F1(A.Var(b_))])
     # (arrays named p<digits> are p-arrays in tdm programs -- passed by name, no arithmetic)
     plain = sorted(n for n, (t, r, c, sym) in ctx.arrays.items() if allow_arrays and not sym and not (n[0] == "p" and n[1:].isdigit()))
     for _ in range(npos):
@@ -600,7 +608,7 @@ def array_decl(draw, ctx, symbolic=None, name=None, max_rows=4, max_cols=5):
         if r * c == 1:
             c = 2      # a lone bare {p} is the whole-array form, which needs a declared shape
     twins = sorted(n for n, (t, rr, cc, sy) in ctx.arrays.items() if not sy and n in ctx.array_elems and n != name)
-    if not sym and twins and draw(st.integers(0, 3)) == 0:
+    if not sym and twins and draw(st.integers(0, 2)) == 0:
         # same elements as an earlier array in another shape (1 x n, n x 1, transposed shape, ...)
         src = draw(st.sampled_from(twins))
         vtype, elems = ctx.array_elems[src]
@@ -611,6 +619,7 @@ def array_decl(draw, ctx, symbolic=None, name=None, max_rows=4, max_cols=5):
         ctx.used.add(name)
         ctx.arrays[name] = (vtype, r, c, False)
         ctx.array_elems[name] = (vtype, elems)
+        ctx.twins.append((src, name))
         return A.ArrayDecl(vtype, name, [str(r), str(c)] if with_shape else None, rows)
     sub = Ctx(ints=ctx.ints, floats=ctx.floats, complexes=ctx.complexes, arrays={k: v for k, v in ctx.arrays.items()},
               depth=min(ctx.depth, 1))
